@@ -129,7 +129,7 @@ func PodFromCoreObject(p *corev1.Pod) (*Pod, error) {
 		ownerRef := p.ObjectMeta.OwnerReferences[refIndex]
 		if ownerRef.Controller != nil && *ownerRef.Controller {
 			if addOwner := addPodOwner(&ownerRef, pr); addOwner {
-				pr.Owner.Variant = variantFromLabelsMap(p.Labels)
+				pr.Owner.Variant = variantFromLabelsAndPorts(p.Labels, pr.Ports)
 			}
 			break
 		}
@@ -245,7 +245,7 @@ func PodsFromWorkloadObject(workload interface{}, kind string) ([]*Pod, error) {
 		for i := range podTemplate.Spec.Containers {
 			pod.Ports = append(pod.Ports, podTemplate.Spec.Containers[i].Ports...)
 		}
-		pod.Owner.Variant = variantFromLabelsMap(podTemplate.Labels)
+		pod.Owner.Variant = variantFromLabelsAndPorts(podTemplate.Labels, pod.Ports)
 		res[index-1] = pod
 	}
 	return res, nil
@@ -259,6 +259,25 @@ func namespacedName(pod *corev1.Pod) string {
 // variantFromLabelsMap returns a unique hash key from given labels map
 func variantFromLabelsMap(labels map[string]string) string {
 	return hex.EncodeToString(sha1.New().Sum([]byte(fmt.Sprintf("%v", labels)))) //nolint:gosec // Non-crypto use
+}
+
+// variantFromLabelsAndPorts returns a unique hash key from what the evaluation of policies reads from a pod of a given
+// owner: its labels and its named container ports (a named port of a policy rule is converted per pod, see ConvertPodNamedPort)
+func variantFromLabelsAndPorts(labels map[string]string, ports []corev1.ContainerPort) string {
+	namedPorts := []string{}
+	for i := range ports {
+		if ports[i].Name != "" {
+			protocol := ports[i].Protocol
+			if protocol == "" {
+				protocol = corev1.ProtocolTCP // unspecified protocol means "TCP" protocol (default)
+			}
+			namedPorts = append(namedPorts, fmt.Sprintf("%s/%s/%d", ports[i].Name, protocol, ports[i].ContainerPort))
+		}
+	}
+	if len(namedPorts) == 0 {
+		return variantFromLabelsMap(labels)
+	}
+	return hex.EncodeToString(sha1.New().Sum([]byte(fmt.Sprintf("%v%v", labels, namedPorts)))) //nolint:gosec // Non-crypto use
 }
 
 func getFakePodIP() string {
